@@ -84,10 +84,12 @@ class C01(Check):
                   'the rule (insert_wf, insert_denote); after every history of add/remove_method the tree holds exactly '
                   'the routes table and resolve = plain matcher over it (resolve_eq_rule_by_rule); kwargs are the names of '
                   'the rule text the handler was registered with, bound to its own filters\' values '
-                  '(params_are_rule_names, filter_guard); every syntax flavour parses to the same abstract rule '
-                  '(parse_print). Model tied to the code by differential runs of whole registration/lookup histories.')
+                  '(params_are_rule_names, filter_guard); for every filter environment, rex selectors included, a '
+                  'handler is only called when its own rule matches and only with filter answers (get_sound, '
+                  'handler_called_only_on_match); every syntax flavour parses to the same abstract rule (parse_print). Model tied to the code by differential runs of whole registration/lookup histories.')
     level_note_extra = ('regex filters are a parameter (real handler results shipped per lookup); filters answering '
-                        'with a rex selector are outside the rule-by-rule theorems (NoSel) and covered by correspondence only')
+                        'with a rex selector are outside the completeness/priority theorems (NoSel; soundness holds for '
+                        'every environment) and are covered there by correspondence only')
     rule = ('histories of 1-8 RadiRouter.add calls (rule ASTs printed in every syntax flavour, sharing/splitting prefixes, '
             'all filter kinds incl. rex selectors, malformed rules, several methods/names per pattern, names, overwrite) '
             'with lookups after almost every registration through RadiRouter.resolve, RadiDict.get(allow_partial) and '
@@ -97,7 +99,7 @@ class C01(Check):
             'length <= 5 over {a / 1 - CR}.')
     assumptions = ['re matching of the filter masks is taken from the running interpreter (handler results and compile errors shipped to the model)',
                    'rule text contains no CR (the router\'s own wildcard marker; rule_without_marker_ok) and no repeated wildcard name: outside, Python pairs filters and markers wrongly and the model does not follow',
-                   'filters answering with a rex selector (two-pass lookup) are covered by correspondence, not by the rule-by-rule theorems (hypothesis NoSel)',
+                   'for filters answering with a rex selector (two-pass lookup) only soundness is proved (get_sound, handler_called_only_on_match); which rule wins / 404-completeness there is covered by correspondence (hypothesis NoSel of the other theorems)',
                    'str.upper on method names is a parameter of the model (ASCII in the correspondence run)',
                    '\\w of re is taken from the interpreter (generated code point ranges)']
 
